@@ -489,36 +489,82 @@ func runHistory(c Case) (res *h.Result) {
 // ---------------------------------------------------------------- generators
 
 var kindsWeighted = []string{
-	"setq", "setq", "setq", "defvar", "defun", "defun", "defun",
-	"use", "use", "use", "unuse", "unuse",
-	"export", "export", "export", "unexport", "unexport",
-	"makunbound", "fmakunbound", "inpkg",
+	"define", "define", "define", "define", "defvar",
+	"use", "use", "use", "use", "unuse", "unuse",
+	"export", "export", "export", "export", "unexport", "unexport",
+	"undefine", "undefine", "inpkg",
 }
 
-func genOp(rt *rapid.T, np int) refpkg.Op {
+// genOp draws one step; names are taken from the history's focus set so that steps meet on the same
+// name often enough for definitions to become visible elsewhere and be retracted again.
+func genOp(rt *rapid.T, np int, focus []string) refpkg.Op {
 	op := refpkg.Op{K: rapid.SampledFrom(kindsWeighted).Draw(rt, "k"), A: rapid.IntRange(0, np-1).Draw(rt, "a")}
 	switch op.K {
 	case "use", "unuse":
 		op.Q = (op.A + rapid.IntRange(1, np-1).Draw(rt, "q")) % np
 		op.Arg = rapid.IntRange(0, 3).Draw(rt, "arg") == 0
 	case "export", "unexport":
-		op.N = rapid.SampledFrom([]string{"x", "y", "f", "g"}).Draw(rt, "n")
+		op.N = rapid.SampledFrom(focus).Draw(rt, "n")
 		op.Arg = rapid.IntRange(0, 3).Draw(rt, "arg") == 0
-	case "setq", "defvar", "makunbound":
-		op.N = rapid.SampledFrom(varNames).Draw(rt, "n")
-	case "defun", "fmakunbound":
-		op.N = rapid.SampledFrom(fnNames).Draw(rt, "n")
+	case "define", "defvar", "undefine":
+		op.N = rapid.SampledFrom(focus).Draw(rt, "n")
+		fn := refpkg.IsFn(op.N)
+		switch {
+		case op.K == "define" && fn, op.K == "defvar" && fn:
+			op.K = "defun"
+		case op.K == "define":
+			op.K = "setq"
+		case op.K == "undefine" && fn:
+			op.K = "fmakunbound"
+		case op.K == "undefine":
+			op.K = "makunbound"
+		}
 	}
 	return op
 }
 
 func genHistory(rt *rapid.T) Case {
 	c := Case{NP: 3}
-	n := rapid.IntRange(1, 40).Draw(rt, "len")
+	all := []string{"x", "y", "f", "g"}
+	// focus: one variable, one function, one of each, or everything
+	var focus []string
+	switch rapid.IntRange(0, 5).Draw(rt, "focus") {
+	case 0, 1:
+		focus = []string{rapid.SampledFrom(varNames).Draw(rt, "v")}
+	case 2, 3:
+		focus = []string{rapid.SampledFrom(fnNames).Draw(rt, "f")}
+	case 4:
+		focus = []string{rapid.SampledFrom(varNames).Draw(rt, "v"), rapid.SampledFrom(fnNames).Draw(rt, "f")}
+	default:
+		focus = all
+	}
+	n := rapid.IntRange(3, 40).Draw(rt, "len")
 	m := refpkg.New(c.NP)
+	// a thread through the history: owner P defines and exports name nm, Q uses P; about a third of the
+	// steps are drawn from the steps that build or retract exactly that, in any order
+	pOwner := rapid.IntRange(0, c.NP-1).Draw(rt, "owner")
+	qUser := (pOwner + rapid.IntRange(1, c.NP-1).Draw(rt, "user")) % c.NP
+	nm := rapid.SampledFrom(focus).Draw(rt, "thread-name")
+	def, undef := "setq", "makunbound"
+	if refpkg.IsFn(nm) {
+		def, undef = "defun", "fmakunbound"
+	}
+	thread := []refpkg.Op{
+		{K: def, A: pOwner, N: nm}, {K: "export", A: pOwner, N: nm}, {K: "use", A: qUser, Q: pOwner},
+		{K: def, A: pOwner, N: nm}, {K: "export", A: pOwner, N: nm}, {K: "use", A: qUser, Q: pOwner},
+		{K: undef, A: pOwner, N: nm}, {K: "unexport", A: pOwner, N: nm}, {K: "unuse", A: qUser, Q: pOwner},
+	}
 	for i := 0; i < n; i++ {
 		for try := 0; try < 4; try++ {
-			op := genOp(rt, c.NP)
+			var op refpkg.Op
+			if rapid.IntRange(0, 2).Draw(rt, "threaded") == 0 {
+				op = rapid.SampledFrom(thread).Draw(rt, "thread-op")
+				if op.K != def && op.K != undef {
+					op.Arg = rapid.IntRange(0, 3).Draw(rt, "arg") == 0
+				}
+			} else {
+				op = genOp(rt, c.NP, focus)
+			}
 			if m.Apply(op, token(op, len(c.Ops))) {
 				c.Ops = append(c.Ops, op)
 				break
@@ -600,7 +646,7 @@ func TestC13(t *testing.T) {
 	h.RunProp(t, enumMixed, 0)
 	h.RunProp(t, history, h.N(4000, 100000))
 
-	lv, lm := 5, 3
+	lv, lm := 4, 3
 	if h.Thorough() {
 		lv, lm = 6, 4
 	}
